@@ -78,14 +78,20 @@ impl<'a> StringLexer<'a> {
                         let mut char_code: u16 = 0;
 
                         // A character code must follow. 1-3 numbers.
+                        let mut digits = 0;
                         for _ in 0..3 {
                             let c = self.peek_byte()?;
                             if (b'0'..=b'7').contains(&c) {
                                 self.next_byte()?;
                                 char_code = char_code * 8 + (c - b'0') as u16;
+                                digits += 1;
                             } else {
                                 break;
                             }
+                        }
+                        if digits == 0 {
+                            // not an escape sequence: the backslash is ignored
+                            return self.next_lexeme();
                         }
                         Some(char_code as u8)
                     }
